@@ -3,8 +3,12 @@ package checks
 import (
 	"encoding/base64"
 	"fmt"
+	"github.com/zishang520/engine.io/v2/engine"
 	"math/rand/v2"
+	"net/http/httptest"
 	"strings"
+	"sync"
+	"sync/atomic"
 	"syscall"
 	"testing"
 	"time"
@@ -488,6 +492,9 @@ func classifyC09(st c09Step, key string) string {
 func TestC09(t *testing.T) {
 	r := rep.New(t, "C09")
 	defer r.Flush()
+	if r.Lane == 2%r.Lanes {
+		otherClientsStorm(r, r.N(16, 640))
+	}
 	if r.Lane == 3%r.Lanes {
 		// the engine behind a types.HttpServer listening itself: HTTP/1.1, HTTP/2 (TLS) and HTTP/3 (QUIC) on loopback
 		netLanes(r, r.N(4, 64))
@@ -570,4 +577,94 @@ func runC09Spin(c c09Case, rng *rand.Rand, r *rep.Report) (key, msg string, stat
 		v.Stop()
 	})
 	return
+}
+
+// otherClientsStorm: an established session keeps exchanging messages while other clients connect,
+// send and leave and while hostile clients hammer the server with requests naming session ids it
+// does not know (real time, real goroutines, recording response writers).  Whatever those do, the
+// established session must stay reachable: every data request of the canary is acknowledged and
+// delivered.
+func otherClientsStorm(r *rep.Report, rounds int) {
+	for round := 0; round < rounds; round++ {
+		so := &config.ServerOptions{}
+		so.SetPingInterval(time.Hour)
+		so.SetPingTimeout(time.Hour)
+		eng := engine.NewServer(so)
+		var delivered atomic.Int64
+		eng.On("connection", func(a ...any) {
+			a[0].(engine.Socket).On("message", func(...any) { delivered.Add(1) })
+		})
+		hs := func() string {
+			rec := httptest.NewRecorder()
+			eng.ServeHTTP(rec, httptest.NewRequest("GET", "http://h/engine.io/?EIO=4&transport=polling", nil))
+			body := rec.Body.String()
+			k := strings.Index(body, `"sid":"`)
+			if k < 0 {
+				return ""
+			}
+			sid := body[k+7:]
+			return sid[:strings.Index(sid, `"`)]
+		}
+		post := func(sid string) (int, string) {
+			rec := httptest.NewRecorder()
+			eng.ServeHTTP(rec, httptest.NewRequest("POST", "http://h/engine.io/?EIO=4&transport=polling&sid="+sid, strings.NewReader("4m")))
+			return rec.Code, rec.Body.String()
+		}
+		canary := hs()
+		if canary == "" {
+			r.Inconclusive("other-clients storm: handshake failed")
+			eng.Close()
+			return
+		}
+		var wg sync.WaitGroup
+		stop := make(chan struct{})
+		for g := 0; g < 6; g++ {
+			wg.Add(2)
+			go func() {
+				defer wg.Done()
+				for {
+					select {
+					case <-stop:
+						return
+					default:
+					}
+					if sid := hs(); sid != "" {
+						post(sid)
+						if s, ok := eng.Clients().Load(sid); ok {
+							s.Close(true)
+						}
+					}
+				}
+			}()
+			go func(g int) {
+				defer wg.Done()
+				for k := 0; ; k++ {
+					select {
+					case <-stop:
+						return
+					default:
+					}
+					post(fmt.Sprintf("no-such-session-%d-%d", g, k))
+				}
+			}(g)
+		}
+		bad := ""
+		sent := int64(0)
+		for k := 0; k < 400 && bad == ""; k++ {
+			code, body := post(canary)
+			sent++
+			if code != 200 || body != "ok" {
+				bad = fmt.Sprintf("data request #%d of the established session was answered %d %.60q", k, code, body)
+			}
+		}
+		close(stop)
+		wg.Wait()
+		r.Case("other-clients-storm", true)
+		r.Obs("canary_data_requests_during_connect_churn_and_unknown_sid_requests", sent)
+		eng.Close()
+		if bad != "" {
+			r.Violation("c09-other-session-disturbed", "while other clients connect, send and leave and others send requests naming unknown session ids: "+bad, map[string]any{"lane": "established session next to connect churn and unknown-sid requests (real time)", "round": round})
+			return
+		}
+	}
 }
